@@ -910,6 +910,16 @@ func (m *intraProxyManager) ReconcilePeerStreams(peerNodeName string) {
 		var sendersToClose []peerStreamKey
 		for key := range ps.senders {
 			if _, ok2 := desiredSenders[key]; !ok2 {
+				// desiredSenders is built from our view of the peer's shards, which lags behind the
+				// peer (it is only refreshed by a full state merge). A sender is registered by a
+				// stream the peer opened because it owns the target shard, so a missing entry usually
+				// means "not merged yet": dropping the registration here leaves the peer's stream
+				// open but unusable, and nothing ever registers it again. Only drop it when our own
+				// half of the pair, which we know for sure, is gone (asked now, not taken from the
+				// snapshot above, which may predate the registration of the shard).
+				if m.shardManager.IsLocalShard(key.sourceShard) {
+					continue
+				}
 				sendersToClose = append(sendersToClose, key)
 			}
 		}
